@@ -5,8 +5,10 @@
    slice expressions E[..] (KIndex), std calls that panic on a bad argument (KCall), compound integer
    updates and subtractions (KArith) - as (file stem, enclosing fn, kind, text with white space and
    string literals normalised), per file in source order.  Line numbers are deliberately absent:
-   moving code is harmless, a new or edited site changes [sites] (obligation C03_panic_inventory,
-   Properties/C03.v; treatment of every entry by the models: Model/PanicMap.v).
+   [sites] is INFORMATION (nothing is proved about it).  PINNED by the obligation C03_panic_inventory
+   (Properties/C03.v) is [panic_keys]: per (file stem, fn) the count of sites of each strong kind - macro
+   name, unwrap / expect, `call <callee>` - without expression text; index and arithmetic entries are not
+   pinned.  Treatment of every pinned group by the models: Model/PanicMap.v.
    [model_sites]: every `Definition site_*` and every literal `Panic <n>` of Model/Lexer.v, Model/PText.v,
    Model/Parser.v, Model/Analysis.v, read from those files on the same run, with its value.
    This committed copy is a snapshot so that a fresh clone builds. *)
@@ -400,6 +402,93 @@ Definition sites : list site := [
   ("error", "write_report", KArith,
    "core::cmp::max(w, 1) - sub")
 ].
+(* the pinned part (C03_panic_inventory): per (file stem, fn), the number of sites of every strong kind *)
+Definition panic_keys : list (string * string * string * nat) := [
+  ("lexer/mod", "block_comment", "debug_assert!", 1);
+  ("lexer/mod", "line_comment", "debug_assert!", 1);
+  ("lexer/mod", "number", "debug_assert!", 1);
+  ("lexer/mod", "whitespace", "debug_assert!", 1);
+  ("lexer/mod", "word", "debug_assert!", 1);
+  ("parser/block_parser", "base_offset", "unwrap", 1);
+  ("parser/block_parser", "bump", "assert_eq!", 1);
+  ("parser/block_parser", "bump_any", "expect", 1);
+  ("parser/block_parser", "error", "debug_assert!", 1);
+  ("parser/block_parser", "finish", "assert_eq!", 1);
+  ("parser/block_parser", "macro_rules!debug_assert_adjacent", "call windows", 1);
+  ("parser/block_parser", "macro_rules!debug_assert_adjacent", "debug_assert!", 1);
+  ("parser/block_parser", "new", "assert!", 1);
+  ("parser/block_parser", "new", "debug_assert!", 1);
+  ("parser/block_parser", "new", "debug_assert_adjacent!", 1);
+  ("parser/block_parser", "new", "unwrap", 2);
+  ("parser/block_parser", "parsed", "call split_at", 1);
+  ("parser/block_parser", "rest", "call split_at", 1);
+  ("parser/block_parser", "slice_str", "debug_assert_adjacent!", 1);
+  ("parser/block_parser", "slice_str", "unwrap", 2);
+  ("parser/block_parser", "text", "assert_eq!", 1);
+  ("parser/block_parser", "text", "debug_assert!", 1);
+  ("parser/block_parser", "text", "debug_assert_adjacent!", 1);
+  ("parser/block_parser", "warn", "debug_assert!", 1);
+  ("parser/mod", "parse_block", "unreachable!", 1);
+  ("parser/mod", "parse_multiline_block", "debug_assert!", 1);
+  ("parser/mod", "tokens_span", "debug_assert!", 1);
+  ("parser/mod", "tokens_span", "unwrap", 2);
+  ("parser/quantity", "int", "assert_eq!", 1);
+  ("parser/quantity", "macro_rules!unwrap_numeric", "unreachable!", 1);
+  ("parser/quantity", "mixed_num", "unreachable!", 1);
+  ("parser/quantity", "parse_advanced_quantity", "unwrap", 5);
+  ("parser/quantity", "parse_quantity", "assert!", 1);
+  ("parser/quantity", "parse_regular_quantity", "unwrap", 1);
+  ("parser/quantity", "range_value", "call split_at", 1);
+  ("parser/quantity", "range_value", "unwrap", 1);
+  ("parser/quantity", "trim_tokens", "unwrap", 1);
+  ("parser/step", "check_alias", "assert_ne!", 2);
+  ("parser/step", "check_alias", "unwrap", 1);
+  ("parser/step", "check_intermediate_data", "assert_ne!", 1);
+  ("parser/step", "check_modifiers", "assert_ne!", 2);
+  ("parser/step", "check_note", "assert!", 1);
+  ("parser/step", "check_note", "assert_ne!", 2);
+  ("parser/step", "cookware", "expect", 1);
+  ("parser/step", "parse_alias", "call split_at", 1);
+  ("parser/step", "parse_alias", "unwrap", 1);
+  ("parser/step", "parse_intermediate_ref_data", "expect", 1);
+  ("parser/step", "parse_modifiers", "panic!", 1);
+  ("analysis/event_consumer", "cookware", "assert!", 1);
+  ("analysis/event_consumer", "cookware", "expect", 1);
+  ("analysis/event_consumer", "cookware", "unwrap", 3);
+  ("analysis/event_consumer", "find_inline_quantity", "call split_at", 1);
+  ("analysis/event_consumer", "find_inline_quantity", "debug_assert!", 1);
+  ("analysis/event_consumer", "in_step", "panic!", 1);
+  ("analysis/event_consumer", "in_text", "assert_eq!", 1);
+  ("analysis/event_consumer", "in_text", "panic!", 1);
+  ("analysis/event_consumer", "in_text", "unreachable!", 1);
+  ("analysis/event_consumer", "ingredient", "assert!", 3);
+  ("analysis/event_consumer", "ingredient", "expect", 1);
+  ("analysis/event_consumer", "ingredient", "unwrap", 5);
+  ("analysis/event_consumer", "metadata", "call insert", 3);
+  ("analysis/event_consumer", "metadata", "unwrap", 1);
+  ("analysis/event_consumer", "parse_events", "assert!", 1);
+  ("analysis/event_consumer", "parse_events", "assert_eq!", 1);
+  ("analysis/event_consumer", "parse_events", "panic!", 2);
+  ("analysis/event_consumer", "parse_reference", "unwrap", 1);
+  ("analysis/event_consumer", "process_frontmatter", "unwrap", 1);
+  ("analysis/event_consumer", "resolve_intermediate_ref", "assert!", 1);
+  ("analysis/event_consumer", "resolve_intermediate_ref", "unwrap", 2);
+  ("analysis/event_consumer", "resolve_reference", "assert!", 1);
+  ("analysis/event_consumer", "set_referenced_from", "panic!", 2);
+  ("analysis/event_consumer", "time_override_check", "assert!", 1);
+  ("analysis/event_consumer", "time_override_check", "call remove", 1);
+  ("analysis/event_consumer", "time_override_check", "panic!", 1);
+  ("analysis/event_consumer", "time_override_check", "unwrap", 1);
+  ("analysis/event_consumer", "timer", "unwrap", 2);
+  ("text", "append_fragment", "assert!", 1);
+  ("text", "span", "unwrap", 2);
+  ("error", "error", "debug_assert_eq!", 1);
+  ("error", "into_result", "unwrap", 1);
+  ("error", "push", "debug_assert!", 1);
+  ("error", "set_severity", "debug_assert!", 1);
+  ("error", "unwrap_output", "unwrap", 1);
+  ("error", "warn", "debug_assert_eq!", 1)
+]%nat.
 Definition model_sites : list (string * N) := [
   ("PText.site_text_append", PText.site_text_append);
   ("Parser.site_bp_new", Parser.site_bp_new);
